@@ -121,12 +121,13 @@ class State:
 
 
 class Frame:
-    __slots__ = ('uid', 'body', 'func')
+    __slots__ = ('uid', 'body', 'func', 'caller')
 
-    def __init__(self, body):
+    def __init__(self, body, caller=None):
         self.uid = next(_uid)
         self.body = body
         self.func = body.path
+        self.caller = caller          # (frame, block) of the call this frame executes, when known
 
 
 class Obligation:
@@ -1334,7 +1335,7 @@ class Engine:
         return ok
 
     # ================= execution =======================================
-    def exec_body(self, st, func, args, depth=0, start_bb=0, typed_locals=False, pre=None, frame=None):
+    def exec_body(self, st, func, args, depth=0, start_bb=0, typed_locals=False, pre=None, frame=None, caller=None):
         """run body `func` from state st with argument values; returns [(state, retval)].
         start_bb / typed_locals: start in the middle of the body with every local an unknown of
         its declared type (used to analyse the coroutine from each resume point); `pre` is called
@@ -1342,7 +1343,7 @@ class Engine:
         body = self.prog.bodies[func]
         if depth > self.cfg['max_depth'] or func in st.stack and st.stack.count(func) >= 3:
             raise Budget('inlining depth exceeded at %s via %s' % (func, ' > '.join(st.stack)))
-        fr = frame if frame is not None else Frame(body)
+        fr = frame if frame is not None else Frame(body, caller)
         if frame is None:
             st.stack = st.stack + (func,)
         for i, a in enumerate(args):
@@ -1663,7 +1664,7 @@ class Engine:
                 results = self.summ.apply(ctx)
             else:
                 ev0 = st.events
-                results = self.exec_body(st, callee, args, depth + 1)
+                results = self.exec_body(st, callee, args, depth + 1, caller=(fr, bi))
                 if len(results) > self.cfg.get('merge_cap', 24):
                     results = self.merge_results(ev0, results, callee)
         else:
@@ -1939,7 +1940,7 @@ class Engine:
             envty = body.locals[1]['ty']
             env = RefV((envref_root, ()), True) if envty.startswith('&') else fval
             # closure args are passed as a tuple by Fn* traits but the body takes them unpacked
-            return self.exec_body(st, fval.func, [env] + list(args), depth + 1)
+            return self.exec_body(st, fval.func, [env] + list(args), depth + 1, caller=(fr, bi) if fr is not None else None)
         if isinstance(fval, FnV):
             kind, callee = self.prog.resolve_callee(fval.fn)
             if kind == 'local':
